@@ -91,7 +91,7 @@ VARIANTS = [
       '                    pass\n                if final_strategy == "merge":\n                    c.execute(\n                        """\n                        UPDATE features SET attributes = ?\n                        WHERE id = ?\n                        """,\n                        (helpers._jsonify(fixed.attributes), fixed.id),\n                    )\n\n', "R5"),
     M("C05", "gff-replace-inserts", C, '                elif final_strategy == "replace":\n                    self._replace(f, c)\n\n', '                elif final_strategy == "replace":\n                    self._insert(f, c)\n\n', "R1"),
     M("C05", "start-end-forcible", C, 'if set(["start", "end"]).intersection(force_merge_fields):', 'if set(["start"]).intersection(force_merge_fields):', "R2"),
-    M("C05", "candidates-by-newid", C, "            duplicates.newid = features.id WHERE duplicates.idspecid = ?", "            duplicates.newid = features.id WHERE duplicates.newid = ?", "R4"),
+    M("C05", "candidates-by-newid", C, "            duplicates.newid = features.id WHERE duplicates.idspecid = ?", "            duplicates.newid = features.id WHERE duplicates.newid = ?", "R5"),
     T("C05", "gtf-binds-tuple", (C, "                            % _set_clause,\n                            values,\n", "                            % _set_clause,\n                            tuple(values),\n")),
     # ------------------------------------------------------------------ C06
     M("C06", "overlap-strict", H, '"features.seqid = ? AND features.start <= ? " "AND features.end >= ?"', '"features.seqid = ? AND features.start < ? " "AND features.end >= ?"', "R1"),
